@@ -93,6 +93,39 @@ PROPS = {
     ),
 }
 
+def classify_c08(op, impl, model_line):
+    m = _m(model_line)
+    if m.get("err") != "ok":
+        return None
+    nf = m.get("nframes", "")
+    if "," not in nf and not nf.startswith("#"):
+        return None
+    return "norm:" + ("with-gaps" if m.get("iframes", "-") != "-" else "contiguous")
+
+
+def classify_c11(op, impl, model_line):
+    m = _m(model_line)
+    f = op.split(" ")
+    if f[1] == "-":
+        return None
+    return "padrange:" + ("changed" if m.get("out") != f[1] else "unchanged") + (":w<2" if int(f[2]) < 2 else "")
+
+
+PROPS["C08"] = dict(
+    n_quick=8000, n_thorough=150000, classify=classify_c08,
+    rule="op fs.norm: Normalize / Invert / InvertedFrameRange(pad) of an accepted range text (1-6 random components, all "
+         "modifiers, both directions, junk), compared with sortedSet / complement of the frame list, re-parse of both "
+         "strings, idempotence, reversed-component order, padded vs unpadded inverse; thorough adds every non-empty subset "
+         "of 12 consecutive integers in ascending and descending presentation; non-trivial = >= 2 frames",
+    assumptions=["numbers fit an int (re-parse theorems carry an explicit Fits hypothesis)"],
+)
+PROPS["C11"] = dict(
+    n_quick=8000, n_thorough=200000, classify=classify_c11,
+    rule="op padrange: PadFrameRange(text, w) for w in -1..8 on valid, partially invalid, spaced, pad-char-bearing and "
+         "mutated range texts; observed: output, component count, same parse, idempotence, numeral widths, equality up "
+         "to leading zeros; non-trivial = non-empty text",
+)
+
 KNOWN_CLASSES = {}
 
 NOT_YET = {}
@@ -109,6 +142,17 @@ MANIFEST_TEXT = {
              "denotation for every range text; tie by differential run on grammar-generated and mutated texts.",
         note="Trusted: Lean kernel; model of frameset.go/fileseq.go regex stage (hand-written recogniser for the three anchored "
              "patterns, Go regexp trusted); sign of N ignored by interpretation."),
+    "C08": dict(
+        text="Theorems: for every accepted range text with >= 1 frame the model's Normalize yields sortedSet of the frames and "
+             "Invert the complement within [min,max], both well-formed; their printed strings re-parse to those lists; "
+             "idempotent and order-insensitive. Loop invariant of `normalized` proved for all gap patterns.",
+        note="Trusted: Lean kernel; model of ranges.go normalized()/String() tied by correspondence; re-parse theorems assume the "
+             "numbers of the result fit an int."),
+    "C11": dict(
+        text="Theorems: PadFrameRange keeps the comma components in place, pads each frame numeral to >= w keeping its value, "
+             "passes non-range parts through, is idempotent, is the identity for w < 2, and the padded text parses to the same "
+             "frame set (or both are rejected) for every text and width.",
+        note="Trusted: Lean kernel; model of pad.go PadFrameRange / zfillString tied by correspondence."),
     "C02": dict(
         text="Theorems that len / frame-at-index / index-of-frame / membership / start / end of the model are views of one "
              "duplicate-free list, for all indices and integers; tie by differential run with full query windows.",
